@@ -36,10 +36,10 @@ def run_check(prop, scratch):
     t0 = time.time()
     r = subprocess.run(["./check", prop, "--tier", "quick"], cwd=VERIF, env=env, capture_output=True, text=True)
     out = r.stdout + r.stderr
-    contracts = sorted(set(re.findall(r"^  contract: (.*)$", out, flags=re.M)))
+    contracts = sorted(set(re.findall(r"^  contract: (.*)$", out, flags=re.M)), key=lambda c: ("::" not in c, c))
     nviol = len(re.findall(r"^VIOLATION ", out, flags=re.M))
     nofail = len(re.findall(r"^VIOLATION .* no-failing-input-found$", out, flags=re.M))
-    return {"exit": r.returncode, "violation_lines": nviol, "without_failing_input": nofail, "contracts": contracts[:12], "wall_s": round(time.time() - t0, 1),
+    return {"exit": r.returncode, "violation_lines": nviol, "without_failing_input": nofail, "contracts": contracts[:14], "wall_s": round(time.time() - t0, 1),
             "tail": "" if r.returncode in (0, 1) else out[-600:]}
 
 
@@ -63,12 +63,17 @@ def main():
                 continue
             try:
                 res = {"repo_head": head, "checks": {}}
-                p = sh("./check spec:all", cwd=VERIF, env=dict(os.environ, VERIF_EVIDENCE_DIR=os.path.join(scratch, "ev"), VERIF_REPLAY_DIR=os.path.join(scratch, "rp"), VERIF_REPO=REPO))
-                res["tier_P_alone"] = {"exit": p.returncode, "not_verified": re.findall(r"^NOT-VERIFIED (.*)$", p.stdout, flags=re.M)[:8]}
                 prop = sid.split("_")[0]
+                if not os.environ.get("SEED_SKIP_P"):
+                    p = sh("./check spec:all", cwd=VERIF, env=dict(os.environ, VERIF_EVIDENCE_DIR=os.path.join(scratch, "ev"), VERIF_REPLAY_DIR=os.path.join(scratch, "rp"), VERIF_REPO=REPO))
+                    res["tier_P_alone"] = {"exit": p.returncode, "not_verified": re.findall(r"^NOT-VERIFIED (.*)$", p.stdout, flags=re.M)[:8]}
                 for pr in [prop] + EXTRA.get(sid, []):
                     res["checks"][pr] = run_check(pr, scratch)
                     print(sid, pr, "exit", res["checks"][pr]["exit"], res["checks"][pr]["contracts"][:2], flush=True)
+                if os.environ.get("SEED_SKIP_P"):
+                    # tier P as seen by the property's own check: reporting contracts that are obligations of a function under contract
+                    own = [c for c in res["checks"][prop]["contracts"] if "::" in c]
+                    res["tier_P_alone"] = {"exit": None, "not_verified": own[:8], "note": "taken from the own check's tier-P obligations (spec:all not run separately)"}
             finally:
                 sh(f"git -C {REPO} checkout -- .")
             json.dump(res, open(os.path.join(d, "detected.json"), "w"), indent=1)
